@@ -1097,6 +1097,8 @@ class ktensor:
             return False
         if self.ncomponents != other.ncomponents:
             return False
+        if self.ndims != other.ndims:
+            return False
         if (self.weights != other.weights).any():
             return False
         for k in range(self.ndims):
